@@ -68,7 +68,17 @@ type planOp struct {
 	// ttlWrap: the TTL is MaxInt64 - now + wrapOff, computed just before the call
 	ttlWrap bool
 	wrapOff int64
-	synth   []synthEnt // Restore / Load: synthetic content (nil = latest exported blob, or empty object when none)
+	// useKpos: the key is the one at position kpos of the deadline index as dumped just before the call
+	// (kpos = -2: the key remembered by the last op with saveKey)
+	useKpos bool
+	kpos    int
+	saveKey bool
+	// nbr != 0: the TTL is chosen so that the new deadline lands next to a NEIGHBOUR of the key in the index:
+	// 1/2 = nbrOff before/after the predecessor's deadline, 3/4 = before/after the successor's, 5 = midway
+	// between them, 6/7 = equal to the predecessor's / successor's
+	nbr    int
+	nbrOff time.Duration
+	synth  []synthEnt // Restore / Load: synthetic content (nil = latest exported blob, or empty object when none)
 }
 
 type plan struct {
@@ -163,6 +173,15 @@ type gen struct {
 	r   *vhlib.Rng
 	val int
 	ops []planOp
+	nk  int // key universe (0 = nKeys)
+}
+
+// addPos: an op on the key found at position kpos of the deadline index at run time
+func (g *gen) addPos(kind, kpos int, ttl, pause time.Duration) *planOp {
+	g.add(kind, 0, ttl, pause)
+	op := &g.ops[len(g.ops)-1]
+	op.useKpos, op.kpos = true, kpos
+	return op
 }
 
 func (g *gen) nv() int { g.val++; return g.val - 1 } // the first stored value is the zero value 0
@@ -194,7 +213,12 @@ func (g *gen) fixWrap(op *planOp) {
 		op.wrapOff = wrapOffsets[g.r.Intn(len(wrapOffsets))]
 	}
 }
-func (g *gen) key() int { return g.r.Intn(nKeys) }
+func (g *gen) key() int {
+	if g.nk > 0 {
+		return g.r.Intn(g.nk)
+	}
+	return g.r.Intn(nKeys)
+}
 
 // synthWith: synthetic content with a chosen entry for key fk (fk < 0: none forced)
 func (g *gen) synthWith(fk int, fe synthEnt) []synthEnt {
@@ -288,7 +312,7 @@ func makePlan(r *vhlib.Rng, idx int) plan {
 	if r.Intn(5) < 2 { // in every profile: DefaultExpire writes of every kind on this configuration
 		g.defaultOps()
 	}
-	switch idx % 7 {
+	switch idx % 8 {
 	case 0:
 		pl.profile = "plain"
 		for len(g.ops) < n {
@@ -460,6 +484,94 @@ func makePlan(r *vhlib.Rng, idx int) plan {
 		for len(g.ops) < n {
 			g.random(false, wLoad)
 		}
+	case 7: // long deadline-index histories: refresh in place, middle deletions, re-stores next to the neighbours' deadlines
+		pl.profile = "index-neighbours"
+		g.ops = nil
+		g.nk = 10
+		offs := []time.Duration{300, 1000, 5000, 200 * time.Microsecond, 2 * ms, 5 * ms}
+		m := r.Range(6, 10)
+		perm := r.Perm(10)
+		step := time.Duration(r.Range(8, 14)) * ms
+		for i := 0; i < m; i++ {
+			g.add([]int{kSet, kSet, kSetIfAbsent}[r.Intn(3)], perm[i], 60*ms+time.Duration(i)*step+time.Duration(r.Intn(3000))*time.Microsecond, 0)
+		}
+		for i := m; i < 10 && r.Bool(); i++ {
+			g.add(kSetNoExpire, perm[i], 0, 0)
+		}
+		lookAll := func() {
+			g.add(kCount, 0, 0, 0)
+			for k := 0; k < 10; k++ {
+				if r.Intn(3) == 0 {
+					g.add(kGetWithExpire, k, 0, 0)
+				}
+			}
+			if r.Bool() {
+				g.add(kExport, 0, 0, 0)
+			}
+		}
+		nbrOp := func(kpos, nbr int, off time.Duration) *planOp {
+			op := g.addPos([]int{kSet, kSet, kReplace, kSetIfAbsent}[r.Intn(4)], kpos, 60*ms, 0)
+			op.nbr, op.nbrOff = nbr, off
+			return op
+		}
+		directed := func() {
+			// remove a MIDDLE node, refresh its old predecessor to just before the successor, re-store the successor
+			// just before that predecessor, wait until the successor is due but the predecessor is not, sweep, look
+			i := r.Range(1, m-2)
+			switch r.Intn(4) {
+			case 0:
+				g.addPos(kDelete, i, 0, 0)
+			case 1:
+				g.addPos(kSetNoExpire, i, 0, 0)
+			case 2:
+				g.addPos(kSet, i, time.Hour, 0)
+			case 3:
+				g.addPos(kReplace, i, bcache.NoExpire, 0)
+			}
+			a := g.addPos([]int{kSet, kReplace}[r.Intn(2)], i-1, 60*ms, 0)
+			a.nbr, a.nbrOff = 3, []time.Duration{3 * ms, 5 * ms}[r.Intn(2)]
+			if r.Intn(3) == 0 {
+				nbrOp(r.Intn(m), 1+r.Intn(7), offs[r.Intn(len(offs))])
+			}
+			c := g.addPos([]int{kSet, kReplace}[r.Intn(2)], i, 60*ms, 0)
+			c.nbr, c.nbrOff, c.saveKey = 1, []time.Duration{2 * ms, 4 * ms}[r.Intn(2)], true
+			sw := g.addPos(kSweep, -2, 0, 0)
+			sw.alignOn, sw.align = true, int64(ms)
+			g.add(kCount, 0, 0, 0)
+			switch r.Intn(3) {
+			case 0:
+				g.addPos(kSetIfAbsent, -2, pickTimed(r), 0)
+			case 1:
+				g.add(kExport, 0, 0, 0)
+			case 2:
+				g.addPos(kGetWithExpire, -2, 0, 0)
+				g.add(kExport, 0, 0, 0)
+			}
+		}
+		for rounds := r.Range(6, 14); rounds > 0; rounds-- {
+			switch r.Intn(12) {
+			case 0, 1, 2, 3, 4:
+				nbrOp(r.Intn(m), 1+r.Intn(7), offs[r.Intn(len(offs))])
+			case 5:
+				g.addPos(kDelete, r.Intn(m), 0, 0)
+			case 6:
+				g.addPos(kSetNoExpire, r.Intn(m), 0, 0)
+			case 7:
+				g.addPos([]int{kGet, kGetWithExpire}[r.Intn(2)], r.Intn(m), 0, time.Duration(r.Intn(40))*ms)
+			case 8:
+				g.add(kSweep, 0, 0, time.Duration(5+r.Intn(40))*ms)
+				lookAll()
+			case 9:
+				g.add(kSet, g.key(), time.Duration(20+r.Intn(150))*ms, 0)
+			case 10, 11:
+				directed()
+			}
+		}
+		if r.Bool() {
+			directed()
+		}
+		g.add(kSweep, 0, 0, 150*ms)
+		lookAll()
 	case 5:
 		pl.profile = "delete-clear-churn"
 		for len(g.ops) < n {
@@ -612,9 +724,78 @@ func runTraceFrom(pl plan, initBlob []byte) (res traceRes) {
 	blob := initBlob
 	prevMem := map[int]ent{}
 	var prevVisK []int
+	lastKey := 0
 	for _, op := range pl.ops {
 		if op.pause > 0 {
 			time.Sleep(op.pause)
+		}
+		if op.useKpos || op.nbr != 0 {
+			memN, visN := c.VerifDump()
+			if op.useKpos {
+				if op.kpos == -2 {
+					op.k = lastKey
+				} else if len(visN) > 0 {
+					p := op.kpos
+					if p >= len(visN) {
+						p = len(visN) - 1
+					}
+					op.k = visN[p].Key
+				}
+			}
+			if op.nbr != 0 {
+				idx := -1
+				for i, n := range visN {
+					if n.Key == op.k {
+						idx = i
+					}
+				}
+				var pred, succ int64 // deadlines of the neighbours (0 = none)
+				if idx >= 0 {
+					if idx > 0 {
+						pred = memN[visN[idx-1].Key].Expire
+					}
+					if idx+1 < len(visN) {
+						succ = memN[visN[idx+1].Key].Expire
+					}
+				} else if len(visN) > 0 {
+					p := len(visN) / 2
+					if p > 0 {
+						pred = memN[visN[p-1].Key].Expire
+					}
+					succ = memN[visN[p].Key].Expire
+				}
+				var target int64
+				off := int64(op.nbrOff)
+				switch op.nbr {
+				case 1:
+					target = pred - off
+				case 2:
+					target = pred + off
+				case 3:
+					target = succ - off
+				case 4:
+					target = succ + off
+				case 5:
+					target = pred/2 + succ/2
+				case 6:
+					target = pred
+				case 7:
+					target = succ
+				}
+				if (op.nbr == 1 || op.nbr == 2 || op.nbr == 6 || op.nbr == 5) && pred == 0 {
+					target = succ - off
+				}
+				if (op.nbr == 3 || op.nbr == 4 || op.nbr == 7 || op.nbr == 5) && succ == 0 {
+					target = pred + off
+				}
+				op.ttl = time.Duration(target - time.Now().UnixNano())
+				if op.ttl < time.Duration(200*time.Microsecond) {
+					op.ttl = ms
+				}
+			}
+		}
+		if op.saveKey {
+			lastKey = op.k
 		}
 		if op.alignOn {
 			var target int64
@@ -1132,6 +1313,11 @@ func MainC12() {
 		nBatches = 400
 	}
 	emitRaces(w, rng.Fork(), nBatches, 48)
+	nLoop, nTickRace, sweepBudget := 60, 20, 4*time.Second
+	if o.Thorough() {
+		nLoop, nTickRace, sweepBudget = 600, 200, 40*time.Second
+	}
+	emitSweepRaces(w, rng.Fork(), nLoop, nTickRace, sweepBudget)
 	defDist := map[string]int{}
 	for _, pl := range plans {
 		key := durStr(pl.def)
